@@ -125,6 +125,8 @@ let parse_sig line : program =
     | "cempty" -> let c = ni () in OCEmpty c
     | "ccopy" | "cmove" -> let a = ni () in let b = ni () in OCCopy (a, b)          (* sigc::connection has no move operations: moving copies *)
     | "casg" | "cmasg" -> let a = ni () in let b = ni () in OCAssign (a, b)
+    | "cshare" -> let c = ni () in OCShare c
+    | "crel" -> let c = ni () in OCRelease c
     | "cdisc" -> let c = ni () in OCDisc c
     | "cblock" -> let c = ni () in let b = nb () in OCBlock (c, b)
     | "cdel" -> let c = ni () in OCDel c
